@@ -1,4 +1,4 @@
-CONSTANT Alphabet = {"cw0", "cf0", "cr0", "cs0", "cd0", "cq0", "ce0", "sw0", "sf0", "sr0", "ss0", "sd0", "sq0", "se0", "n", "x"}
+CONSTANT Alphabet = {"cw0", "cf0", "cr0", "cs0", "cd0", "cq0", "ce0", "cu0", "sw0", "sf0", "sr0", "ss0", "sd0", "sq0", "se0", "su0", "n", "x"}
 CONSTANT N = 5
 INIT Init
 NEXT Next
